@@ -339,58 +339,45 @@ class eval_abs(object):
             ret_value = ret_value * a
         return ret_value
 
-    def eval_op_div(self, args, op_size, cast_int):
-        a = uint64(args[0])
-        b = uint64(args[1])
-        c = uint64(args[2])
+    def _div_operands(self, args, op_size, signed):
+        # dividend = args[0]:args[1] (high:low), divisor = args[2]
+        mask = (1 << op_size) - 1
+        big = ((int(args[0]) & mask) << op_size) + (int(args[1]) & mask)
+        c = int(args[2]) & mask
         if c == 0:
             raise ValueError('div by 0')
-        big = (a<<uint64(op_size))+b
-        ret_value =  big/c
-        if ret_value>mymaxuint[op_size]:raise ValueError('Divide Error')
-        return ret_value
+        if signed:
+            if big >> (2*op_size - 1):
+                big -= 1 << (2*op_size)
+            if c >> (op_size - 1):
+                c -= 1 << op_size
+            # the quotient is truncated toward zero
+            q = abs(big) // abs(c)
+            if (big < 0) != (c < 0):
+                q = -q
+            if not -(1 << (op_size - 1)) <= q < (1 << (op_size - 1)):
+                raise ValueError('Divide Error')
+        else:
+            q = big // c
+            if q > mask:
+                raise ValueError('Divide Error')
+        return big, c, q
+
+    def eval_op_div(self, args, op_size, cast_int):
+        big, c, q = self._div_operands(args, op_size, False)
+        return q
 
     def eval_op_rem(self, args, op_size, cast_int):
-        a = uint64(args[0])
-        b = uint64(args[1])
-        c = uint64(args[2])
-        if c == 0:
-            raise ValueError('div by 0')
-        big = (a<<uint64(op_size))+b
-        ret_value =  big-c*(big/c)
-        if ret_value>mymaxuint[op_size]:raise ValueError('Divide Error')
-        return ret_value
+        big, c, q = self._div_operands(args, op_size, False)
+        return big - q*c
 
     def eval_op_idiv(self, args, op_size, cast_int):
-        a = uint64(args[0])
-        b = uint64(args[1])
-        c = int64(tab_u2i[cast_int](args[2]))
-        if c == 0:
-            raise ValueError('div by 0')
-        big = (a<<uint64(op_size))+b
-        big = tab_intsize[op_size*2](big)
-        ret_value =  big/c
-        try:
-            ret_value = tab_u2i[cast_int](ret_value)
-        except ValueError:
-            raise ValueError('Divide Error')
-        return ret_value
+        big, c, q = self._div_operands(args, op_size, True)
+        return q & ((1 << op_size) - 1)
 
     def eval_op_irem(self, args, op_size, cast_int):
-        a = uint64(args[0])
-        b = uint64(args[1])
-        c = int64(tab_u2i[cast_int](args[2]))
-        if c == 0:
-            raise ValueError('div by 0')
-        big = (a<<uint64(op_size))+b
-        big = tab_intsize[op_size*2](big)
-        ret_value =  big/c
-        try:
-            ret_value = tab_u2i[cast_int](ret_value)
-        except ValueError:
-            raise ValueError('Divide Error')
-        ret_value = big-ret_value*c
-        return ret_value
+        big, c, q = self._div_operands(args, op_size, True)
+        return (big - q*c) & ((1 << op_size) - 1)
 
     def eval_op_mulhi(self, args, op_size, cast_int):
         a = uint64(args[0])
@@ -403,6 +390,24 @@ class eval_abs(object):
         b = uint64(args[1])
         ret_value =  (a*b) & mymaxuint[op_size]
         return ret_value
+
+    def eval_op_imulhi(self, args, op_size, cast_int):
+        a = int(args[0]) & mymaxuint[op_size]
+        b = int(args[1]) & mymaxuint[op_size]
+        if a >> (op_size-1): a -= 1 << op_size
+        if b >> (op_size-1): b -= 1 << op_size
+        return ((a*b) >> op_size) & mymaxuint[op_size]
+
+    def eval_op_umul08(self, args, op_size, cast_int):
+        # al * r/m8, a 16-bit product
+        return (int(args[0]) & 0xFF) * (int(args[1]) & 0xFF)
+
+    def eval_op_imul08(self, args, op_size, cast_int):
+        a = int(args[0]) & 0xFF
+        b = int(args[1]) & 0xFF
+        if a >> 7: a -= 0x100
+        if b >> 7: b -= 0x100
+        return (a*b) & mymaxuint[op_size]
 
     def eval_op_eq(self, args, op_size, cast_int):
         ret_value =  [0, 1][int(args[0] == args[1])]
@@ -555,8 +560,22 @@ class eval_abs(object):
                #XXX
                'objbyid_default0':objbyid_default0,
                }
+    # the x86 semantics name their multiplications and divisions after the operand size
+    for _s in (16, 32):
+        deal_op['umul%d_hi'%_s] = eval_op_mulhi
+        deal_op['umul%d_lo'%_s] = eval_op_mullo
+        deal_op['imul%d_hi'%_s] = eval_op_imulhi
+        deal_op['imul%d_lo'%_s] = eval_op_mullo
+    deal_op['umul08'] = eval_op_umul08
+    deal_op['imul08'] = eval_op_imul08
+    for _s in (8, 16, 32):
+        deal_op['div%d'%_s] = eval_op_div
+        deal_op['rem%d'%_s] = eval_op_rem
+        deal_op['idiv%d'%_s] = eval_op_idiv
+        deal_op['irem%d'%_s] = eval_op_irem
+    del _s
 
-    op_size_no_check = ['<<<', '>>>', 'a<<', 'a>>', '>>', '<<',
+    op_size_no_check = ['<<<', '>>>', 'a<<', 'a>>', '>>', '<<', 'umul08', 'imul08',
                         '<<<c_rez', '<<<c_cf',
                         '>>>c_rez', '>>>c_cf',]
 
